@@ -156,6 +156,15 @@ def run(chk, prog):
     okb2 = len(trac) == 1 and trac[0] in (want, want2)
     chk.require(okb1 and okb2, "CHM-RECURSE", "Switch.build", "branch i masked by (i == idx), every branch kept in place", derived=show(trac[0])[:260] if trac else "no traced-index arm",
                 expected="int idx: list(chms)[idx]; traced idx: Switch(idx, [chm.mask(i == idx) for i, chm in enumerate(chms)]) - no branch dropped or reordered", where=W(sw, "build"))
+    # a Switch all of whose branches are empty IS the empty map: Static.build drops empty entries and invalid_subset tests static_is_empty(); without the override
+    # (base: False) a switch model's own choices are never reported fully valid
+    oke_ = "static_is_empty" in sw.methods
+    dere_ = "Switch does not override static_is_empty (base returns False)"
+    if oke_:
+        re_ = ev.eval_fn(sw.methods["static_is_empty"], sw.module, sw)
+        dere_ = show(re_.ret)[:160]
+        oke_ = is_call(re_.ret, "all") and mentions_any(re_.ret, lambda x: is_mcall(x, "static_is_empty") and x[1][1] == mk_elem(chms))
+    chk.require(oke_, "CHM-RECURSE", "Switch.static_is_empty", "emptiness of a switch map", derived=dere_, expected="all(chm.static_is_empty() for chm in self.chms)", where=W(sw, "filter"))
     r = ev.eval_fn(sw.methods["get_inner_map"], sw.module, sw)
     okswg = r.ret == ("ctor", "Switch", (IDX, ("fam", chms, ("call", ("attr", mk_elem(chms), "get_inner_map"), (ADDR,), ()))), ())
     chk.require(okswg, "CHM-RECURSE", "Switch.get_inner_map", "every branch looked up at the same address", derived=show(r.ret)[:200], expected="Switch(idx, [chm.get_inner_map(addr) for chm in chms])", where=W(sw, "get_inner_map"))
